@@ -250,6 +250,7 @@ type donorRun struct {
 	dumps    []*storeDump
 	queries  [][]queryResult
 	results  []string
+	final    histFacts // the history-level facts after the whole history
 }
 
 // deferredCut / chainedCut: the cuts at which the two extra cycles run (a third of the cuts each).
@@ -263,8 +264,9 @@ func runDonor(cmds []wcmd, cuts map[int]bool, st *cutStats) *donorRun {
 	var held []raft.FSMSnapshot
 	renamed := false
 	sigs := instanceSigs(d.store())
+	names := newNameTracker()
 	for k := 0; k <= len(cmds); k++ {
-		r.wit = append(r.wit, computeWitness(d.store(), renamed))
+		r.wit = append(r.wit, computeWitness(d.store(), histFacts{renamed, names.snapshot()}))
 		if st != nil {
 			for _, c := range secretCombos(d.store()) {
 				st.secretCombos[c]++
@@ -294,10 +296,12 @@ func runDonor(cmds []wcmd, cuts map[int]bool, st *cutStats) *donorRun {
 				st.applies++
 			}
 			after := instanceSigs(d.store())
-			renamed = renamed || reRegistered(sigs, after)
+			renamed = renamed || reRegistered(sigs, after) || txnRenames(data)
 			sigs = after
+			names.note(d.store())
 		}
 	}
+	r.final = histFacts{true, names.snapshot()}
 	// the deferred Persists: the snapshots taken at their cuts are written only now
 	for _, h := range held {
 		var b []byte
@@ -402,7 +406,7 @@ func checkCut(cmds []wcmd, k int, dr *donorRun, st *cutStats) []Failure {
 					if st != nil {
 						st.chained++
 					}
-					w2 = computeWitness(m.store(), true)
+					w2 = computeWitness(m.store(), dr.final)
 					d2 = dumpStore(m.store())
 					out = append(out, compareDumps(k, "chained-dump", d2, dumpStore(m2.store()), w2, false)...)
 					out = append(out, compareQueries(k, "chained-query", runQueries(m.store(), uni), runQueries(m2.store(), uni), w2, false)...)
@@ -422,11 +426,16 @@ func checkCut(cmds []wcmd, k int, dr *donorRun, st *cutStats) []Failure {
 			}
 		}
 		if res != dr.results[i] {
-			if w.has(mOrphanSecret) && strings.Contains(res, "peering secret is already in use") && !strings.HasPrefix(dr.results[i], "error:") && usesOrphanSecret(data, w) {
+			if w.has(mOrphanSecret) && strings.Contains(res, "peering secret is already in use") && !strings.HasPrefix(dr.results[i], "error:") && usesSecret(data, w.orphanIDs) {
 				// consequence of the orphan-secret finding: the restore recorded the secret of a row
 				// that outlived its peering as a used UUID, and this command proposes that very id
 				out = append(out, Failure{Cut: k, Stage: "suffix-result", Signature: known(mOrphanSecret),
 					Detail: fmt.Sprintf("command %d (%s) after the cut: accepted by the donor, refused by the restored server", i, cmds[i].Desc),
+					Extra: map[string]string{"donor": clip(dr.results[i]), "restored": clip(res)}})
+			} else if w.has(mUnheldUUID) && strings.Contains(dr.results[i], "peering secret is already in use") && !strings.HasPrefix(res, "error:") && usesSecret(data, w.unheldIDs) {
+				// the donor still lists an id that none of its secrets rows holds; the restored server forgot it
+				out = append(out, Failure{Cut: k, Stage: "suffix-result", Signature: known(mUnheldUUID),
+					Detail: fmt.Sprintf("command %d (%s) after the cut: refused by the donor, accepted by the restored server", i, cmds[i].Desc),
 					Extra: map[string]string{"donor": clip(dr.results[i]), "restored": clip(res)}})
 			} else {
 				out = append(out, Failure{Cut: k, Stage: "suffix-result", Signature: map[string]any{"kind": "suffix-result-differs", "command": cmds[i].Kind},
@@ -450,9 +459,9 @@ func checkCut(cmds []wcmd, k int, dr *donorRun, st *cutStats) []Failure {
 	return out
 }
 
-// usesOrphanSecret: the command's payload carries one of the orphan rows' secret ids.
-func usesOrphanSecret(data []byte, w *witness) bool {
-	for q := range w.orphanIDs {
+// usesSecret: the command's payload carries one of the (quoted) secret ids.
+func usesSecret(data []byte, ids map[string]bool) bool {
+	for q := range ids {
 		if id, err := strconv.Unquote(q); err == nil && bytes.Contains(data, []byte(id)) {
 			return true
 		}
@@ -524,6 +533,7 @@ func genWide(seed int64, mix string, n int) []wcmd {
 	d := newMachine()
 	defer d.close()
 	g := &wgen{rng: rand.New(rand.NewSource(seed)), st: d.store, mix: mix}
+	g.caseMix = g.rng.Intn(2) == 0
 	var cmds []wcmd
 	for i := 0; i < n; i++ {
 		c := g.next()
@@ -597,6 +607,7 @@ func main() {
 	nWide := flag.Int("wide", -1, "number of wide histories (default by tier)")
 	nModel := flag.Int("model", -1, "number of model histories (default by tier)")
 	replay := flag.String("replay", "", "replay file: {cmds:[...], cut:k}")
+	show := flag.String("show", "", "with -replay: comma-separated tables whose donor / restored rows at the cut are printed too")
 	flag.Parse()
 
 	netutil.GetAgentBindAddrFunc = netutil.GetMockGetAgentBindAddrFunc("0.0.0.0")
@@ -642,7 +653,20 @@ func main() {
 		if fs == nil {
 			fs = []Failure{}
 		}
-		emit(map[string]any{"mode": "replay", "cut": r.Cut, "commands": len(r.Cmds), "failures": fs})
+		rep := map[string]any{"mode": "replay", "cut": r.Cut, "commands": len(r.Cmds), "failures": fs}
+		if *show != "" && dr.snapErr[r.Cut] == nil {
+			m := newMachine()
+			if err := m.restore(dr.snaps[r.Cut]); err == nil {
+				rd := dumpStore(m.store())
+				rows := map[string]any{}
+				for _, t := range strings.Split(*show, ",") {
+					rows[t] = map[string][]string{"donor": dr.dumps[r.Cut].strict[t], "restored": rd.strict[t]}
+				}
+				rep["rows"] = rows
+			}
+			m.close()
+		}
+		emit(rep)
 		return
 	}
 
